@@ -1,4 +1,4 @@
-"""C02 -- occurrence finding is exact (structural clauses R02.1-R02.24)."""
+"""C02 -- occurrence finding is exact (structural clauses R02.1-R02.25)."""
 from __future__ import annotations
 
 import ast
@@ -36,6 +36,7 @@ EXPLANATION = (
 EXPLANATION += ' R02.22: line/column pairs (see R01.17).'
 EXPLANATION += " R02.19: identifier characters are the interpreter's.  R02.20 (=R15.17): walrus targets in comprehensions.  R02.21: header expressions of def / class are evaluated in the parent scope."
 EXPLANATION += ' R02.18: a `col_offset`/`end_col_offset` of an AST node (UTF-8 bytes) reaches a character offset only through codeanalyze.column_to_offset; it is otherwise only compared, or is the start column of a node tested to be a statement.'
+EXPLANATION += " R02.25 (=R13.8): a failed module lookup is remembered nowhere (cell or attribute): an import evaluated before its module existed resolves once the module is there."
 ASSUMPTIONS = ["re alternation is ordered (leftmost position, first alternative wins)",
                "the name searched for is a plain identifier (symbolic NAME in the folded pattern)"]
 
@@ -122,6 +123,9 @@ def check(ctx, res) -> None:
     header_expression_scope_rule(ctx, res, "R02.21")
     comprehension_iterable_scope_rule(ctx, res, "R02.23")
     decorators_above_the_statement_rule(ctx, res, "R02.24")
+    from .c13 import no_negative_cache_rule
+
+    no_negative_cache_rule(ctx, res, "R02.25")
     from .common import position_pair_rule
 
     position_pair_rule(ctx, res, "R02.22", ("rope.refactor.occurrences", "rope.refactor.functionutils", "rope.base.evaluate", "rope.refactor.patchedast", "rope.base.codeanalyze"))
